@@ -129,6 +129,33 @@ def run(ctx):
         ctx.ob("R5", "AdjacencyList::%s#moves" % nm, takes and puts,
                what="AdjacencyList::%s takes entries out of `%s` without pushing them into %s" % (nm, src, dsts), where=f.loc())
 
+    # tombstones outlive the entries they hide: compaction only moves entries between tiers, it never removes a deleted
+    # entry physically, so the `deleted` set may only shrink in a function that also rebuilds (clears / retains / replaces)
+    # every tier that can still hold the entry. Clearing it after draining the delta buffer resurrects every deleted edge
+    # that an earlier compaction had already moved into a chunk.
+    SHRINK = ("clear", "remove", "retain", "drain", "take", "swap_remove", "pop", "truncate")
+    nw = 0
+    for g in sorted(P.fns.values(), key=lambda g: g.id):
+        if "index::adjacency" not in g.id or "::tests::" in g.id:
+            continue
+        a3 = E.own_acc(g)
+        dw = [a for a in a3 if a.cell == (AL, "deleted") and E.is_write(a)]
+        if not dw:
+            continue
+        nw += 1
+        shr = [a for a in dw if any(o.split("::")[-1] in SHRINK for o in a.ops) or not a.ops]
+        if not shr:
+            continue
+        a4 = []
+        for h in P.family(g):
+            a4 += E.own_acc(h)
+        rebuilt = all(any(a.cell == (AL, tier) and E.is_write(a) and (not a.ops or any(o.split("::")[-1] in SHRINK for o in a.ops)) for a in a4)
+                      for tier in ("hot_chunks", "cold_chunks"))
+        ctx.ob("R5", "%s#tombstones-outlive-entries" % short_id(g.id), rebuilt,
+               what="%s shrinks the tombstone set `deleted` without rebuilding the hot and cold chunks: an edge deleted after an earlier "
+                    "compaction is still stored in a chunk, so neighbour lists and degrees show it again" % short_id(g.id), where=g.loc())
+    ctx.floor("R5", nw, 1, "functions writing AdjacencyList.deleted")
+
     # ---- R2 counts and enumerators share one clock
     clocks = {}
     for m in ("node_count", "edge_count", "all_nodes", "all_edges", "node_ids"):
